@@ -142,6 +142,37 @@ class Interp:
             break
         return key
 
+    def key_of(self, p, e):
+        """Access path of an lvalue with array indices evaluated (a[i].f with i == 2 is 'a[2].f')."""
+        fn = self.fn
+        e = strip(e)
+        if not isinstance(e, dict):
+            return None
+        k = e.get("k")
+        if k == "ref":
+            return self.key_of(p, fn.elem(e["b"], e["i"]))
+        if k == "var":
+            return e["n"]
+        if k == "mem":
+            b = self.key_of(p, e["b"])
+            return None if b is None else b + ("->" if e["arrow"] else ".") + e["f"]
+        if k == "un" and e["op"] in ("*", "&"):
+            b = self.key_of(p, e["e"])
+            return None if b is None else e["op"] + b
+        if k == "idx":
+            b = self.key_of(p, e["b"])
+            if b is None:
+                return None
+            if "->" not in b and "." not in b and "[" not in b:
+                v = self._lookup_raw(p, b)
+                if isinstance(v, Ptr) and isinstance(v.what, str) and v.what[:4] not in ("str:", "arr:") and not v.what.startswith("fn:"):
+                    b = v.what        # indexing through a pointer to an abstract array object
+            iv = self.ev(p, e["i"])
+            if isinstance(iv, int):
+                return "%s[%d]" % (b, iv)
+            return None
+        return None
+
     def read(self, p, key):
         if key is None:
             return TOP
@@ -219,8 +250,6 @@ class Interp:
             return self.read(p, e["n"])
         if k in ("mem", "idx"):
             if k == "idx":
-                # evaluate a variable index so that a[i] with known i reads a[<value>]
-                bkey = lvalue_key(e["b"], fn)
                 iv = self.ev(p, e["i"])
                 bv = strip(e["b"])
                 if self.prog is not None and isinstance(bv, dict) and bv.get("k") == "var" and bv.get("s") in ("global", "slocal") \
@@ -228,12 +257,11 @@ class Interp:
                     gv = global_element(self.prog, bv["n"], iv, fn.unit)
                     if gv is not NOGLOBAL:
                         return gv
-                if bkey is not None and isinstance(iv, int):
-                    return self.read(p, "%s[%d]" % (bkey, iv))
-                return TOP
+                key = self.key_of(p, e)
+                return self.read(p, key) if key is not None else TOP
             if e.get("t", "").endswith("]"):
-                return Ptr("arr:" + str(lvalue_key(e, fn)))
-            v = self.read(p, lvalue_key(e, fn))
+                return Ptr("arr:" + str(self.key_of(p, e)))
+            v = self.read(p, self.key_of(p, e))
             if v is TOP and (e.get("r", "").endswith("_list_st") or e.get("r") == "KSI_List_st") and "(*)" in e.get("t", ""):
                 # list objects are only made by KSI_List_new, which fills the whole vtable (list.c)
                 return Ptr("vtbl:" + e["f"])
@@ -246,11 +274,12 @@ class Interp:
         if k == "un":
             op = e["op"]
             if op == "&":
-                return Ptr(lvalue_key(e["e"], fn))
+                kk = self.key_of(p, e["e"])
+                return Ptr(kk if kk is not None else lvalue_key(e["e"], fn))
             if op == "*":
-                return self.read(p, lvalue_key(e, fn))
+                return self.read(p, self.key_of(p, e))
             if op in ("post++", "post--", "pre++", "pre--"):
-                key = lvalue_key(e["e"], fn)
+                key = self.key_of(p, e["e"])
                 old = self.read(p, key)
                 new = TOP if not isinstance(old, int) else old + (1 if "++" in op else -1)
                 self.write(p, key, new, e.get("ln"))
@@ -350,14 +379,12 @@ class Interp:
             return a if (a == b and a is not TOP) else TOP
         if k == "asg":
             v = self.ev(p, e["r"])
-            key = lvalue_key(e["l"], fn)
             l = strip(e["l"])
-            if l.get("k") == "idx":
-                bkey = lvalue_key(l["b"], fn)
-                iv = self.ev(p, l["i"])
-                key = "%s[%d]" % (bkey, iv) if (bkey is not None and isinstance(iv, int)) else None
-                if key is None and bkey is not None:
-                    self.clobber(p, bkey)
+            key = self.key_of(p, l)
+            if key is None:
+                bk = lvalue_key(l, fn)
+                if bk is not None and "[" in bk:
+                    self.clobber(p, bk.split("[")[0])
             if e["op"] != "=":
                 old = self.read(p, key)
                 bop = e["op"][:-1]
@@ -414,7 +441,14 @@ class Interp:
             p.trace.append(("call", name or ("*" + str(callee_val)), args, e.get("ln"), rv))
             return rv
         if k == "decl":
-            v = self.ev(p, e["init"]) if "init" in e else TOP
+            init = e.get("init")
+            if isinstance(init, dict) and init.get("k") == "arr":
+                for j, x in enumerate(init["e"]):
+                    p.env["%s[%d]" % (e["n"], j)] = self.ev(p, x)
+                for c in (e["n"] + "[",):
+                    p.clobbered.discard(c)
+                return TOP
+            v = self.ev(p, init) if init is not None else TOP
             p.env[e["n"]] = v
             p.clobbered.discard(e["n"])
             return v
